@@ -996,9 +996,15 @@ fn era1_and_paced2_cases(r: &mut Runner) {
 fn fdt_starvation_cases(r: &mut Runner) {
     let mut i = 0;
     for full in [true, false] {
-        for fdt_dur in [S, 12 * S, 40 * S] {
+        // fdt_duration 0 (accepted by Sender::new): threshold 0 - with an ADVANCING clock every poll republishes (the
+        // repair of F24 only covers repeated polls at one instant); no control possible (every positive step starves)
+        for fdt_dur in [0, S, 12 * S, 40 * S] {
             let lead = if fdt_dur > 30 * S { 5 * S } else if fdt_dur > 10 * S { S } else { 0 };
-            for starve in [true, false] {
+            // starve: one instance takes at least fdt_duration - lead to send; control far from / just below the boundary
+            for variant in ["starve", "far", "near"] {
+                if fdt_dur == 0 && variant != "starve" {
+                    continue;
+                }
                 i += 1;
                 r.begin(&format!("fdtstarve-{}", i));
                 // tiny FDT symbols: one instance = many packets
@@ -1014,12 +1020,29 @@ fn fdt_starvation_cases(r: &mut Runner) {
                     r.finish();
                     continue;
                 }
-                let n = r.eng.fdt_tbl.values().copied().max().unwrap_or(1).max(1);
-                let threshold = (fdt_dur - lead) / n + 1;
-                let step = if starve { threshold } else { (threshold / 3).max(1) };
-                // phase 2: real-time polling, one read per `step`
+                // instances differ in size (being-transferred mode lists the object or not): the smallest one decides
+                // whether EVERY instance outlives its own transmission, the largest one whether NONE does
+                let n_min = r.eng.fdt_tbl.values().copied().min().unwrap_or(1).max(1);
+                let n_max = r.eng.fdt_tbl.values().copied().max().unwrap_or(1).max(1);
+                let thr = fdt_dur - lead;
+                let step = match variant {
+                    "starve" => thr / n_min + 1,
+                    "far" => (thr / n_max / 3).max(1),
+                    // largest step with (n_max + 1) * step < threshold: the instance is released before it is due again
+                    _ => (thr.saturating_sub(1) / (n_max + 1)).max(1),
+                };
+                let starve = variant == "starve";
+                // phase 2: real-time polling, one read per `step`; warm-up until the instance sent in phase 1 (at one
+                // instant) is due for republication, then the steady state is measured
+                for _ in 0..(n_min + 2) {
+                    r.now += step;
+                    r.read();
+                    if r.dead {
+                        break;
+                    }
+                }
                 let before = r.eng.obj_pkts;
-                let polls = 4 * n + 40;
+                let polls = 4 * n_max + 40;
                 for _ in 0..polls {
                     r.now += step;
                     r.read();
@@ -1030,13 +1053,16 @@ fn fdt_starvation_cases(r: &mut Runner) {
                 let sent = r.eng.obj_pkts - before;
                 if sent == 0 && !r.dead {
                     let d = format!(
-                        "{} reads, one every {} ns: FDT packets only, 0 object packets although the carousel object is eligible; one FDT instance = {} packets, fdt_duration {} ns, republish lead {} ns: sending one instance takes {} ns >= {} ns",
-                        polls, step, n, fdt_dur, lead, n * step, fdt_dur - lead
+                        "{} reads, one every {} ns: FDT packets only, 0 object packets although the carousel object is eligible; one FDT instance = {}..{} packets, fdt_duration {} ns, republish lead {} ns: sending one instance takes >= {} ns, threshold {} ns",
+                        polls, step, n_min, n_max, fdt_dur, lead, n_min * step, thr
                     );
                     r.ctx.oracle_fail(if starve { "C12:fdt-only-starvation-slow-polling" } else { "C12:fdt-only-starvation-unexplained" }, &d);
                 }
                 if starve && sent > 0 && !r.dead {
                     r.ctx.count("fdtstarve:not-reproduced");
+                }
+                if starve && fdt_dur == 0 {
+                    r.ctx.count("fdtstarve:duration-0-advancing-clock");
                 }
                 r.op("sched remove 1".into());
                 r.finish();
